@@ -109,7 +109,8 @@ Next ==
        \/ s.w[a] = "forked" /\ s' = PostInit(s, a)
        \/ s.w[a] = "init" /\ s.req[a] < Threads /\ s' = PreRequest(s, a)
        \/ s.w[a] \in {"init", "wexit"} /\ s.req[a] > 0 /\ s' = PostRequest(s, a)
-       \/ s.w[a] \in {"forked", "init"} /\ s.sig[a] = "none" /\ \E g \in {"int", "abort"} : s' = Signalled(s, a, g)
+       \* (a worker that is signalled again before it has left runs the hook again)
+       \/ s.w[a] \in {"forked", "init"} /\ \E g \in {"int", "abort"} : s' = Signalled(s, a, g)
        \/ s.w[a] \in {"forked", "init"} /\ s' = WorkerExit(s, a)
        \/ s.w[a] \in {"pre", "forked", "init"} /\ s' = Killed(s, a)
 Init == s = S0
